@@ -74,8 +74,16 @@ mod c34;
 #[allow(dead_code)]
 mod agconv;
 mod children;
+#[allow(dead_code)]
+mod execcmp;
 
 fn main() {
+    // generators and the code under test recurse over documents: run on a roomy stack
+    let h = std::thread::Builder::new().stack_size(256 << 20).spawn(real_main).unwrap();
+    let _ = h.join();
+}
+
+fn real_main() {
     let args: Vec<String> = std::env::args().collect();
     if args.len() >= 3 && args[1] == "--child" {
         std::process::exit(children::child_main(&args[2], &args[3..]));
